@@ -464,7 +464,8 @@ def slice_untouched_fields(ctx) -> Set[str]:
     for n in walk_own(sl.node):
         if isinstance(n, ast.Assign):
             for t in n.targets:
-                if isinstance(t, ast.Attribute) and isinstance(t.value, ast.Name) and t.value.id in ('new_annotation', 'self'):
+                if isinstance(t, ast.Attribute) and isinstance(t.value, ast.Name):
+                    # self, a copy of self, or an alias that is one or the other
                     assigned.add(t.attr.lstrip('_'))
     return fields - assigned
 
